@@ -112,8 +112,9 @@ func (k Keeper) EditBasket(ctx sdk.Context, basket types.Basket) error {
 	// TODO: what happens if suffix change?
 	// TODO: what happens if a basket token is removed?
 
-	// use previous surplus
+	// use previous surplus and previous amount (the amount follows mints and burns only)
 	basket.Surplus = oldBasket.Surplus
+	basket.Amount = oldBasket.Amount
 
 	prevAmounts := make(map[string]sdk.Int)
 	for _, token := range oldBasket.Tokens {
